@@ -5,6 +5,7 @@ pub mod c10;
 pub mod c13;
 pub mod c14;
 pub mod c15;
+pub mod c17;
 pub mod c19;
 pub mod c20;
 pub mod scen;
@@ -28,6 +29,7 @@ pub fn run(ctx: &Ctx) -> i32 {
         "C13" => return c13::run_check(ctx),
         "C14" => return c14::run(ctx),
         "C15" => return c15::run(ctx),
+        "C17" => return c17::run(ctx),
         "C19" => return c19::run(ctx),
         "C20" => return c20::run(ctx),
         _ => {}
@@ -70,6 +72,10 @@ pub fn replay(_ctx: &Ctx, kind: &str, input: &Value) -> Result<Vec<Violation>, S
         "c15-input" => {
             let inp: c15::Input = serde_json::from_value(input.clone()).map_err(|e| e.to_string())?;
             Ok(c15::replay(&inp))
+        }
+        "case-c17" => {
+            let case: crate::scenario::Case = serde_json::from_value(input.clone()).map_err(|e| e.to_string())?;
+            Ok(c17::replay(&case))
         }
         "c19-cell" => {
             let cell: c19::Cell = serde_json::from_value(input.clone()).map_err(|e| e.to_string())?;
